@@ -215,8 +215,7 @@ def change [DecidableEq V] (g : Graph V) (s : St V) (changes : List (Nat × V)) 
 /-- `testoptparvector(values)`: the changes are the positions where `values` differs from `last_values` -/
 def diffVec [DecidableEq V] (g : Graph V) (s : St V) (values : List V) : List (Nat × V) :=
   (List.range g.nOpt).filterMap (fun i =>
-    let v := values.getD i default
-    if s.lastValues i = v then none else some (i, v))
+    if s.lastValues i = values.getD i default then none else some (i, values.getD i default))
 
 def call [DecidableEq V] (g : Graph V) (s : St V) (values : List V) : St V × Option V :=
   change g s (diffVec g s values)
